@@ -363,6 +363,8 @@ func c12Run(c *Ctx) {
 			acc("GPL-2.0+ WITH %s", v, true, true)
 			acc("Apache-2.0+ WITH %s", v, true, true)
 			acc("(MIT+ WITH %s)", v, true, true)
+			acc("MIT WITH %s AND GPL-2.0 WITH %s", v, true, true)
+			acc("LGPL-2.1 WITH %s OR (eCos-2.0 WITH %s AND MIT WITH %s)", v, true, true)
 			for _, f := range c12BadForms {
 				acc(f, v, false, true)
 			}
